@@ -5,9 +5,6 @@ Property theorems only (helper lemmas: KlogV/Lemmas/Values.lean).
 import KlogV.Lemmas.Values
 import KlogV.Props.Rx.Values
 import KlogV.Props.Rx.Model
-import KlogV.Props.GoSrc
-import KlogV.Props.GoCal
-import KlogV.Props.GoSrcParse
 namespace KlogV.C16
 
 /-! ### Times -/
